@@ -517,3 +517,113 @@ Proof.
 Qed.
 
 End UstarOkStrings.
+
+Lemma firstn_all_le : forall n (l : list Z), length l <= n -> firstn n l = l.
+Proof. intros. apply firstn_all2. assumption. Qed.
+
+Lemma cstr_zeros : forall n, cstr (zeros n) = [].
+Proof. destruct n; reflexivity. Qed.
+
+Section UstarOkStrings2.
+Variable e : entry.
+Variable tt : Z.
+Hypothesis Hok : fst (ustar_header e tt true) = 0%Z.
+Let facts : ustar_ok_facts e tt := ustar_ok e tt Hok.
+
+Theorem ustar_ok_linkname :
+  no_nul (linkname_of e) ->
+  cstr (slice R_tar_linkname_offset R_tar_linkname_size (snd (ustar_header e tt true))) = linkname_of e.
+Proof.
+  intros Hnn. pose proof (uf_link _ _ facts) as Hlen.
+  change R_tar_linkname_offset with USTAR_linkname_offset. change R_tar_linkname_size with USTAR_linkname_size.
+  destruct (linkname_of e) as [|c t] eqn:El.
+  - rewrite ustar_untouched; [rewrite linkname_region_zero; apply cstr_zeros | | leaf].
+    unfold ustar_fields; cbv zeta; cbn [snd]. rewrite El. away_all.
+  - rewrite <- El in *.
+    replace USTAR_linkname_size with (length (linkname_of e) + (USTAR_linkname_size - length (linkname_of e))) at 1 by lia.
+    rewrite (ustar_field_padded e tt USTAR_linkname_offset (linkname_of e) (USTAR_linkname_size - length (linkname_of e))
+               (snd (ustar_name_writes (ob (e_path e))))
+               (wr_if (0 <? length (ob (e_uname e))) USTAR_uname_offset (firstn USTAR_uname_size (ob (e_uname e)))
+                ++ skipn 0 (wr_if (0 <? length (ob (e_gname e))) USTAR_gname_offset (firstn USTAR_gname_size (ob (e_gname e)))
+                ++ [(USTAR_mode_offset, snd (ustar_format_number (Z.land (e_mode e) 4095) USTAR_mode_size USTAR_mode_max_size true));
+                    (USTAR_uid_offset, snd (ustar_format_number (e_uid e) USTAR_uid_size USTAR_uid_max_size true));
+                    (USTAR_gid_offset, snd (ustar_format_number (e_gid e) USTAR_gid_size USTAR_gid_max_size true));
+                    (USTAR_size_offset, snd (ustar_format_number (size_of e) USTAR_size_size USTAR_size_max_size true));
+                    (USTAR_mtime_offset, snd (ustar_format_number (e_mtime e) USTAR_mtime_size USTAR_mtime_max_size true))]
+                ++ wr_if (is_dev e) USTAR_rdevmajor_offset (snd (ustar_format_number (dev_major (e_rdev e)) USTAR_rdevmajor_size USTAR_rdevmajor_max_size true))
+                ++ wr_if (is_dev e) USTAR_rdevminor_offset (snd (ustar_format_number (dev_minor (e_rdev e)) USTAR_rdevminor_size USTAR_rdevminor_max_size true))
+                ++ match ustar_typeflag e tt with Some t0 => [(USTAR_typeflag_offset, [t0])] | None => [] end))).
+    + rewrite (slice_of_zero_region _ _ _ _ _ linkname_region_zero) by (unfold USTAR_linkname_offset; lia).
+      apply cstr_app_zeros. assumption.
+    + unfold ustar_fields; cbv zeta; cbn [snd skipn]. rewrite El. cbn [length Nat.ltb Nat.leb wr_if].
+      rewrite <- El. rewrite firstn_all_le by assumption. reflexivity.
+    + cbn [skipn]. away_all.
+    + unfold ustar_fields; cbv zeta; cbn [snd]. away_all.
+    + leaf.
+Qed.
+
+Theorem ustar_ok_uname : tt <> 120%Z ->
+  no_nul (ob (e_uname e)) ->
+  cstr (slice R_tar_uname_offset R_tar_uname_size (snd (ustar_header e tt true))) = ob (e_uname e).
+Proof.
+  intros Htt Hnn. pose proof (uf_uname _ _ facts Htt) as Hlen.
+  change R_tar_uname_offset with USTAR_uname_offset. change R_tar_uname_size with USTAR_uname_size.
+  destruct (ob (e_uname e)) as [|c t] eqn:El.
+  - rewrite ustar_untouched; [rewrite uname_region_zero; apply cstr_zeros | | leaf].
+    unfold ustar_fields; cbv zeta; cbn [snd]. rewrite El. away_all.
+  - rewrite <- El in *.
+    replace USTAR_uname_size with (length (ob (e_uname e)) + (USTAR_uname_size - length (ob (e_uname e)))) at 1 by lia.
+    rewrite (ustar_field_padded e tt USTAR_uname_offset (ob (e_uname e)) (USTAR_uname_size - length (ob (e_uname e)))
+               (snd (ustar_name_writes (ob (e_path e)))
+                ++ wr_if (0 <? length (linkname_of e)) USTAR_linkname_offset (firstn USTAR_linkname_size (linkname_of e)))
+               (wr_if (0 <? length (ob (e_gname e))) USTAR_gname_offset (firstn USTAR_gname_size (ob (e_gname e)))
+                ++ [(USTAR_mode_offset, snd (ustar_format_number (Z.land (e_mode e) 4095) USTAR_mode_size USTAR_mode_max_size true));
+                    (USTAR_uid_offset, snd (ustar_format_number (e_uid e) USTAR_uid_size USTAR_uid_max_size true));
+                    (USTAR_gid_offset, snd (ustar_format_number (e_gid e) USTAR_gid_size USTAR_gid_max_size true));
+                    (USTAR_size_offset, snd (ustar_format_number (size_of e) USTAR_size_size USTAR_size_max_size true));
+                    (USTAR_mtime_offset, snd (ustar_format_number (e_mtime e) USTAR_mtime_size USTAR_mtime_max_size true))]
+                ++ wr_if (is_dev e) USTAR_rdevmajor_offset (snd (ustar_format_number (dev_major (e_rdev e)) USTAR_rdevmajor_size USTAR_rdevmajor_max_size true))
+                ++ wr_if (is_dev e) USTAR_rdevminor_offset (snd (ustar_format_number (dev_minor (e_rdev e)) USTAR_rdevminor_size USTAR_rdevminor_max_size true))
+                ++ match ustar_typeflag e tt with Some t0 => [(USTAR_typeflag_offset, [t0])] | None => [] end)).
+    + rewrite (slice_of_zero_region _ _ _ _ _ uname_region_zero) by (unfold USTAR_uname_offset; lia).
+      apply cstr_app_zeros. assumption.
+    + unfold ustar_fields; cbv zeta; cbn [snd]. rewrite El. cbn [length Nat.ltb Nat.leb wr_if].
+      rewrite <- El. rewrite firstn_all_le by assumption. repeat rewrite <- app_assoc. reflexivity.
+    + away_all.
+    + unfold ustar_fields; cbv zeta; cbn [snd]. away_all.
+    + leaf.
+Qed.
+
+Theorem ustar_ok_gname : tt <> 120%Z ->
+  no_nul (ob (e_gname e)) ->
+  cstr (slice R_tar_gname_offset R_tar_gname_size (snd (ustar_header e tt true))) = ob (e_gname e).
+Proof.
+  intros Htt Hnn. pose proof (uf_gname _ _ facts Htt) as Hlen.
+  change R_tar_gname_offset with USTAR_gname_offset. change R_tar_gname_size with USTAR_gname_size.
+  destruct (ob (e_gname e)) as [|c t] eqn:El.
+  - rewrite ustar_untouched; [rewrite gname_region_zero; apply cstr_zeros | | leaf].
+    unfold ustar_fields; cbv zeta; cbn [snd]. rewrite El. away_all.
+  - rewrite <- El in *.
+    replace USTAR_gname_size with (length (ob (e_gname e)) + (USTAR_gname_size - length (ob (e_gname e)))) at 1 by lia.
+    rewrite (ustar_field_padded e tt USTAR_gname_offset (ob (e_gname e)) (USTAR_gname_size - length (ob (e_gname e)))
+               (snd (ustar_name_writes (ob (e_path e)))
+                ++ wr_if (0 <? length (linkname_of e)) USTAR_linkname_offset (firstn USTAR_linkname_size (linkname_of e))
+                ++ wr_if (0 <? length (ob (e_uname e))) USTAR_uname_offset (firstn USTAR_uname_size (ob (e_uname e))))
+               ([(USTAR_mode_offset, snd (ustar_format_number (Z.land (e_mode e) 4095) USTAR_mode_size USTAR_mode_max_size true));
+                    (USTAR_uid_offset, snd (ustar_format_number (e_uid e) USTAR_uid_size USTAR_uid_max_size true));
+                    (USTAR_gid_offset, snd (ustar_format_number (e_gid e) USTAR_gid_size USTAR_gid_max_size true));
+                    (USTAR_size_offset, snd (ustar_format_number (size_of e) USTAR_size_size USTAR_size_max_size true));
+                    (USTAR_mtime_offset, snd (ustar_format_number (e_mtime e) USTAR_mtime_size USTAR_mtime_max_size true))]
+                ++ wr_if (is_dev e) USTAR_rdevmajor_offset (snd (ustar_format_number (dev_major (e_rdev e)) USTAR_rdevmajor_size USTAR_rdevmajor_max_size true))
+                ++ wr_if (is_dev e) USTAR_rdevminor_offset (snd (ustar_format_number (dev_minor (e_rdev e)) USTAR_rdevminor_size USTAR_rdevminor_max_size true))
+                ++ match ustar_typeflag e tt with Some t0 => [(USTAR_typeflag_offset, [t0])] | None => [] end)).
+    + rewrite (slice_of_zero_region _ _ _ _ _ gname_region_zero) by (unfold USTAR_gname_offset; lia).
+      apply cstr_app_zeros. assumption.
+    + unfold ustar_fields; cbv zeta; cbn [snd]. rewrite El. cbn [length Nat.ltb Nat.leb wr_if].
+      rewrite <- El. rewrite firstn_all_le by assumption. repeat rewrite <- app_assoc. reflexivity.
+    + away_all.
+    + unfold ustar_fields; cbv zeta; cbn [snd]. away_all.
+    + leaf.
+Qed.
+
+End UstarOkStrings2.
